@@ -47,6 +47,16 @@ ifeq ($(V),opt)
   LDSAN    :=
   VARDEF   := -DSIM_VARIANT_OPT
 endif
+ifeq ($(V),casan)
+  # clang's view of the same sources: behaviour that is undefined in C (signed
+  # overflow in coordinate arithmetic) comes out differently than with gcc
+  CC       := clang
+  OPT      := -O1
+  SAN      := -fsanitize=address
+  SIMSAN   := -fsanitize=address
+  LDSAN    := -fsanitize=address
+  VARDEF   := -DSIM_VARIANT_ASAN
+endif
 ifeq ($(V),tsan)
   CC       := clang
   OPT      := -O1
@@ -64,7 +74,7 @@ CORE_OBJS   := $(addprefix $(B)/core/,$(CORE_SRCS:.c=.o))
 
 WRAP := -Wl,--wrap=malloc,--wrap=calloc,--wrap=realloc,--wrap=free
 
-WORLDS := region glyph16 glyph64 glyph fault hist hist16 cfg thread sample
+WORLDS := region glyph16 glyph64 glyph fault fault-short hist hist16 cfg thread sample
 
 .PHONY: worlds clean all
 all: worlds
@@ -121,6 +131,10 @@ $(B)/region: $(B)/worlds/region.o $(CORE_OBJS) $(B)/libpixman.a
 $(B)/fault: $(B)/worlds/fault.o $(CORE_OBJS) $(B)/libpixman.a
 	$(LINK)
 $(B)/hist: $(B)/worlds/hist.o $(CORE_OBJS) $(B)/libpixman.a
+	$(LINK)
+# hook H5: 64-byte scanline buffers, so that the heap-buffer path of the general
+# compositor (and its allocation-failure branch) runs at ordinary widths
+$(B)/fault-short: $(B)/worlds/fault.o $(B)/pixman-small/pixman-general-short.o $(CORE_OBJS) $(B)/libpixman.a
 	$(LINK)
 $(B)/hist16: $(B)/worlds/hist.o $(B)/pixman-small/pixman-glyph-16.o $(CORE_OBJS) $(B)/libpixman.a
 	$(LINK)
